@@ -106,6 +106,13 @@ def DanglingConditionalTargetWithoutSources(payload):
 
 
 @trigger
+def LazyEncoderSelected(payload):
+    """Selection ended with a lazy encoder (the count of matrices or every eager candidate expired): lazy encoders
+    never look at the set of valid matrices up front."""
+    return any(str(n).startswith('Lazy') for n in (payload.get('selected') or []))
+
+
+@trigger
 def HasConnectionChoice(payload):
     return bool(_g(payload).get('cc'))
 
